@@ -490,6 +490,10 @@ class Verifier:
             for e in cls.ensures:
                 t = self.eval_clause(st, e, spec_env)
                 self.emit(st, "post", e.__name__, t)
+            # clauses over the final values of the function's own local variables
+            for e in getattr(cls, "at_exit", ()):
+                envx = dict(st.frames[-1].locals, result=result, g=self.ghost_view(st), old=old)
+                self.emit(st, "post", "at-exit." + e.__name__, self.eval_clause(st, e, envx))
             st.trace.append("return")
             return
         if out[0] == "raise":
@@ -538,9 +542,12 @@ class Verifier:
             self.emit(st, "pre", "%s.%s" % (cls.qualname, r.__name__), t)
             st.assume(t)
         # caller-side assertions attached to this call site by the caller's contract
-        if caller is not None and len(st.frames) >= 1 and st.frames[-1].func is self.cur_func:
+        if caller is not None and len(st.frames) >= 1:
             for fn in getattr(caller, "at_calls", {}).get(cls.qualname.split(".")[-1], []):
-                envc = dict(st.frames[-1].locals, g=self.ghost_view(st), old=getattr(st, "old", None))
+                envc = {}
+                for frm in st.frames:          # inlined frames see the enclosing locals (inner shadows outer)
+                    envc.update(frm.locals)
+                envc.update(g=self.ghost_view(st), old=getattr(st, "old", None))
                 for k2, v2 in bound.items():
                     envc["arg_" + k2] = v2
                 self.emit(st, "assert", "at-%s.%s" % (cls.qualname.split(".")[-1], fn.__name__),
